@@ -98,6 +98,9 @@ func (p *Parser) Parse(source string) (Node, error) {
 		return nil, fmt.Errorf("parsing error: %w", err)
 	}
 
+	// Every macro of the template gets to know the macros defined next to it
+	linkMacros(nodes)
+
 	return NewRootNode(nodes, 1), nil
 }
 
